@@ -226,22 +226,27 @@ def run(prog, rep, tier, cfg):
         a = prog.slicer.local(CP, 0)
         rep.need('K10', 'timeout:penalty-is-full-collateral', has_atom(a, 'P:1') and not any(x[0] == 'OP' for x in a) and not has_atom(a, 'C:::div') and not has_atom(a, 'C:::mul'),
                  'the missed-activation penalty is the whole provider collateral', X.loc(CP))
+    slash_burnt(prog, rep, X)
+
+
+def slash_burnt(prog, rep, X, prefix=''):
+    """every amount slashed from escrow is summed and sent to the burnt-funds actor in the same call (also evaluated under C01)"""
     for hn in ('Actor::cron_tick', 'Actor::settle_deal_payments', 'Actor::on_miner_sectors_terminate'):
         H = X.fn(hn, CR)
         key = hn.split('::')[-1]
         burns = [c for c in H.calls if sendsmod.is_send(c) and has_atom(prog.narrow.operand(H, c.args[1]), 'K:BURNT_FUNDS_ACTOR_ADDR')]
-        rep.need('K5', 'slash-burnt:%s:send' % key, len(burns) == 1 and result_fate(H, burns[0]) == 'try', 'one burn send with failure propagated', X.loc(H))
+        rep.need('K5', prefix + 'slash-burnt:%s:send' % key, len(burns) == 1 and result_fate(H, burns[0]) == 'try', 'one burn send with failure propagated', X.loc(H))
         src = ['C:State::process_slashed_deal'] if key == 'on_miner_sectors_terminate' else ['C:State::get_active_deal_or_process_timeout']
         for c in burns:
-            X.arg_has('K10', 'slash-burnt:%s:amount' % key, c, 4, src, 'the burnt value is the sum of slashed amounts')
+            X.arg_has('K10', prefix + 'slash-burnt:%s:amount' % key, c, 4, src, 'the burnt value is the sum of slashed amounts')
             gz = m_pred('is_zero', src, False) if key != 'on_miner_sectors_terminate' else m_pred('is_positive', src, True)
-            X.guard('K6b', 'slash-burnt:%s:only-skip-zero' % key, H, [c.bb], gz, 'burn unless zero')
+            X.guard('K6b', prefix + 'slash-burnt:%s:only-skip-zero' % key, H, [c.bb], gz, 'burn unless zero')
         okacc = False
         for g in prog.family(H):
             for c in g.calls:
                 if (c.defp or '').endswith('AddAssign::add_assign') and has_all(prog.narrow.operand(g, c.args[1]), src):
                     okacc = True
-        rep.need('K10', 'slash-burnt:%s:accumulated' % key, okacc, 'slashed amounts are summed with +=', X.loc(H))
+        rep.need('K10', prefix + 'slash-burnt:%s:accumulated' % key, okacc, 'slashed amounts are summed with +=', X.loc(H))
 
 
 def _base_local(g, op, depth=0):
